@@ -303,3 +303,22 @@ pub fn gen_deep_narrow(r: &mut Rng, depth: usize) -> MVal {
     }
     v
 }
+
+/// A document with one payload of 2^24 bytes or slightly more (the entry length field is 28 bits wide;
+/// 2^24 is where a length narrowed to three bytes first goes wrong). About 16 MiB: used very rarely.
+pub fn gen_huge_payload(r: &mut Rng) -> MVal {
+    let n = (1usize << 24) + *r.pick(&[0usize, 1, 3, 300]);
+    let big = MVal::Str("a".repeat(n));
+    match r.below(4) {
+        0 => big,
+        1 => MVal::Arr(vec![big, MVal::U64(7)]),
+        2 => {
+            let mut m = BTreeMap::new();
+            m.insert("k".to_string(), big);
+            m.insert("z".to_string(), MVal::Bool(true));
+            MVal::Obj(m)
+        }
+        // the nested *container* is what crosses 2^24 bytes
+        _ => MVal::Arr(vec![MVal::Arr(vec![big, MVal::Null]), MVal::s("tail")]),
+    }
+}
